@@ -197,7 +197,7 @@ _WORK = None
 def workdir():
     global _WORK
     if _WORK is None:
-        base = os.path.join(os.path.dirname(os.path.dirname(os.path.abspath(__file__))), ".work")
+        base = os.environ.get("VERIF_RUN_TMP") or os.path.join(os.path.dirname(os.path.dirname(os.path.abspath(__file__))), ".work")
         os.makedirs(base, exist_ok=True)
         _WORK = tempfile.mkdtemp(prefix=f"w{os.getpid()}_", dir=base)
         import atexit
